@@ -244,6 +244,85 @@ def login_histories(run, rng, thorough):
                 pc.safe_disconnect(conn)
 
 
+def response_not_sent_case(run, rng, idx):
+    """Fault injection at the one send() that carries the encryption response
+    (recognised by LoginReactor.react on the call stack): it fails with a
+    broken pipe - the server has given up meanwhile and sent a plain-text
+    login disconnect.  The secret never reached the server, so the cipher
+    must not be in force afterwards: whatever the client reports, it has not
+    pushed the server's plain text through a decryptor."""
+    import sys
+    from minecraft.networking import encryption
+    from ..probes import client as pc
+    from ..server import mcserver, scripts
+    from ..server.codec import codec_for
+    pv = (757, 404, 340, 47)[idx % 4]
+    codec = codec_for(pv)
+    state = {}
+
+    def handler(io):
+        hs = scripts.read_handshake(io)
+        if hs is None:
+            return
+        io.recv_frame()                          # login start
+        key, der = scripts.server_key()
+        rid, rp = codec.encode('encryption_request', {
+            'server_id': '-', 'public_key': der, 'verify_token': b'tokn'})
+        did, dp = codec.encode('login_disconnect',
+                               {'reason': '{"text":"Server is full"}'})
+        if idx % 2:
+            io.send_raw(io.encode_frame(rid, rp) + io.encode_frame(did, dp))
+        else:
+            io.send_frame(rid, rp)
+            io.send_frame(did, dp)
+        io.half_close()
+        try:
+            io.wait_eof(5.0)
+        except mcserver.ScriptTimeout:
+            pass
+    server = mcserver.Server(handler)
+    rec = pc.Recorder()
+    conn = pc.make_connection(server.port, rec, allowed_versions={pv})
+    injected = []
+
+    def send_hook(kind, proxy, data):
+        if kind != 'send' or injected:
+            return
+        f = sys._getframe()
+        while f is not None:
+            if f.f_code.co_qualname == 'LoginReactor.react':
+                injected.append(1)
+                raise BrokenPipeError(32, 'Broken pipe')
+            f = f.f_back
+    conn.vf_send_hook = send_hook
+    w = {'pv': pv, 'one_segment': bool(idx % 2)}
+    try:
+        conn.connect()
+        if not pc.wait_idle(conn, 10.0):
+            return 'threads alive'
+        run.count('encryption_responses_not_sent')
+        if not injected:
+            return 'the send of the encryption response was never seen'
+        wrapped = [type(x).__name__ for x in (conn.socket, conn.file_object)
+                   if isinstance(x, (encryption.EncryptedSocketWrapper,
+                                     encryption.EncryptedFileObjectWrapper))]
+        exc = rec.exceptions[0] if rec.exceptions else None
+        from minecraft.exceptions import LoginDisconnect
+        plausible = isinstance(exc, (BrokenPipeError, LoginDisconnect))
+        if wrapped or not plausible:
+            run.violation('e2e/cipher-on-although-response-not-sent',
+                          'the encryption response could not be sent (broken '
+                          'pipe), yet the client went on as if encryption '
+                          'were in force: the server\'s plain-text disconnect '
+                          'was not reported, or the cipher wrappers are '
+                          'installed', dict(w, wrappers=wrapped,
+                                            reported=repr(exc)))
+        return None
+    finally:
+        pc.safe_disconnect(conn)
+        server.stop()
+
+
 def concurrent_keys(run, rng, thorough):
     """Several connections of one process log in to servers with different
     keys at the same time: every (token, secret) pair must be recoverable by
@@ -548,6 +627,28 @@ def run(run):
                                 'method': name, 'ciphertext_returned':
                                 bool(got) and got != plain})
                         break
+                # half-close: the application shuts down its sending side;
+                # what the server still sends keeps decrypting (the two
+                # directions are independent)
+                try:
+                    sock.shutdown(_socket.SHUT_WR)
+                    plain = bytes(rng.randrange(32, 127) for _ in range(24))
+                    b.sendall(ref_dec.encrypt(plain))
+                    got = b''
+                    while len(got) < len(plain):
+                        piece = fobj.read(len(plain) - len(got)) \
+                            if rep % 2 else sock.recv(len(plain) - len(got))
+                        if not piece:
+                            break
+                        got += piece
+                except Exception as e:
+                    got = repr(e)
+                run.count('wrapper_half_close_probes')
+                if got != plain:
+                    run.violation('wrapper/half-close-breaks-incoming',
+                                  'after shutdown(SHUT_WR) on the encrypted '
+                                  'socket wrapper the incoming direction no '
+                                  'longer decrypts', {'got': repr(got)[:80]})
             finally:
                 for x in (raw_file, a, b):
                     try:
@@ -648,6 +749,12 @@ def run(run):
                               {'flags_accepted': flags_taken,
                                'via': 'recv' if rep == 0 else 'file read'})
 
+    for i in range(16 if thorough else 4):
+        if run.mine(i):
+            err = response_not_sent_case(run, rng, i)
+            run.case(('response-not-sent', i))
+            if err:
+                run.inconclusive_because('response not sent %d: %s' % (i, err))
     # secrets: length and freshness
     secrets = [encryption.generate_shared_secret() for _ in range(1000)]
     run.count('secrets_generated', len(secrets))
